@@ -46,6 +46,10 @@ type c02Case struct {
 	// consumed on the same channel first; the response under test is then
 	// the second one on that channel.
 	Prelude bool `json:"second_response_on_channel,omitempty"`
+	// PreludeShape: how that earlier response arrived - 0 one packet; 1 data
+	// packet + header-only EOM packet; 2 data packet + two header-only
+	// packets, the second with EOM; 3 cut inside a package + header-only EOM
+	PreludeShape int `json:"earlier_response_packets,omitempty"`
 	// Consumer "until-poll": see c02_poll.go
 	Consumer string `json:"consumer,omitempty"`
 }
@@ -134,17 +138,34 @@ func c02Deliver(pkts [][]byte, via string, reads []int) (out c02Out, err error) 
 	return c02DeliverOpt(pkts, via, reads, false)
 }
 
-func c02DeliverOpt(pkts [][]byte, via string, reads []int, prelude bool) (out c02Out, err error) {
+// c02PreludePackets: an earlier, complete response (RETURNSTATUS + DONE(COUNT);
+// the library supplies the final DONE) in one of four packetisations.
+func c02PreludePackets(shape int) [][]byte {
+	first := append(srv.ReturnStatus(77), srv.Done(srv.TokDone, srv.DoneCount, 0, 1)...)
+	data := func(b []byte, st byte) []byte { return xport.Packet(byte(tds.TDS_BUF_RESPONSE), st, 0, b) }
+	switch shape {
+	case 1:
+		return [][]byte{data(first, 0), data(nil, xport.EOM)}
+	case 2:
+		return [][]byte{data(first, 0), data(nil, 0), data(nil, xport.EOM)}
+	case 3:
+		return [][]byte{data(first[:3], 0), data(first[3:], 0), data(nil, xport.EOM)}
+	}
+	return [][]byte{data(first, xport.EOM)}
+}
+
+func c02DeliverOpt(pkts [][]byte, via string, reads []int, prelude bool, shape ...int) (out c02Out, err error) {
 	k, err := newKit(4096, 0)
 	if err != nil {
 		return out, err
 	}
 	defer k.teardown()
 	if prelude {
-		// an earlier, complete response: RETURNSTATUS + DONE(COUNT) -> the
-		// library supplies the final DONE
-		first := append(srv.ReturnStatus(77), srv.Done(srv.TokDone, srv.DoneCount, 0, 1)...)
-		k.tr.Feed(xport.Packet(byte(tds.TDS_BUF_RESPONSE), xport.EOM, 0, first))
+		sh := 0
+		if len(shape) > 0 {
+			sh = shape[0]
+		}
+		k.tr.Feed(c02PreludePackets(sh)...)
 		if !awaitIdle(k.tr, 30*time.Second) {
 			out.watchdog = true
 			return out, nil
@@ -285,10 +306,10 @@ func c02Exec(c *Ctx, cs c02Case, ref c02Ref) {
 			r.Inconclusive("until-poll: the reference delivery of %s has no final DONE", cs.Resp)
 			return
 		}
-		out, err = c02DeliverPoll(pkts, cs.Prelude, finals)
+		out, err = c02DeliverPoll(pkts, cs.Prelude, finals, cs.PreludeShape)
 		r.Count("until_poll_deliveries", 1)
 	} else {
-		out, err = c02DeliverOpt(pkts, cs.Via, cs.Reads, cs.Prelude)
+		out, err = c02DeliverOpt(pkts, cs.Via, cs.Reads, cs.Prelude, cs.PreludeShape)
 	}
 	if err != nil {
 		r.Inconclusive("cannot set up connection: %v", err)
@@ -315,12 +336,13 @@ func c02Exec(c *Ctx, cs c02Case, ref c02Ref) {
 		inside = true
 	}
 	if inside {
-		key, _ := json.Marshal([]interface{}{cs.Resp, cs.Family, cs.Cuts, cs.EmptyAt, cs.EmptyEOM, cs.Reads, cs.Prelude, cs.EmptyTail, cs.StatusExtra, cs.Consumer})
+		key, _ := json.Marshal([]interface{}{cs.Resp, cs.Family, cs.Cuts, cs.EmptyAt, cs.EmptyEOM, cs.Reads, cs.Prelude, cs.EmptyTail, cs.StatusExtra, cs.Consumer, cs.PreludeShape})
 		r.Distinct(string(key))
 	}
 	fam := cs.Family
 	if cs.Prelude {
 		fam = "second-response/" + fam
+		r.Count(fmt.Sprintf("second_response_after_earlier_response_shape_%d", cs.PreludeShape), 1)
 	}
 	if cs.Consumer == "until-poll" {
 		fam = "until-poll/" + fam
@@ -435,7 +457,9 @@ func runC02(c *Ctx) {
 			nadd++
 			if nadd%5 == 0 {
 				cs.Prelude = true
+				cs.PreludeShape = (nadd / 5) % 4
 				jobs = append(jobs, job{cs, ref})
+				cs.PreludeShape = 0
 			}
 			// every 7th (of at most 12 packets) also with the polling
 			// consumer, every other of those as the second response
